@@ -375,6 +375,19 @@ class JacobianAssembly:
                             break
 
             if variable not in self.sizes:
+                for discipline in self.coupling_structure.disciplines:
+                    if variable in discipline.io.input_grammar:
+                        value = discipline.io.data.get(variable)
+                        if value is not None:
+                            self.sizes[variable] = (
+                                discipline.io.input_grammar.data_converter.get_value_size(
+                                    variable, value
+                                )
+                            )
+                            self.disciplines[variable] = discipline
+                            break
+
+            if variable not in self.sizes:
                 msg = f"Failed to determine the size of input variable {variable}"
                 raise ValueError(msg)
 
@@ -438,7 +451,7 @@ class JacobianAssembly:
         # Iterate over outputs
         for row_index, function in enumerate(functions):
             column = 0
-            function_jacobian = self.disciplines[function].jac[function]
+            function_jacobian = self.disciplines[function].jac.get(function, {})
             # Iterate over inputs
             for column_index, variable in enumerate(variables):
                 jacobian = function_jacobian.get(variable, None)
@@ -714,6 +727,12 @@ class JacobianAssembly:
         n_residuals = self.compute_dimension(sorted_couplings_minimal)
         if residual_variables:
             n_residuals += self.compute_dimension(residual_variables.keys())
+        if not couplings_and_res:
+            return self.split_jac(
+                {fun: self.assemble_jacobian([fun], variables) for fun in functions},
+                variables,
+            )
+
         # compute the partial derivatives of the residuals
         dres_dx = self.assemble_jacobian(couplings_and_res, variables, is_residual=True)
 
